@@ -117,7 +117,9 @@ def stepPath (K : Consts) (P : State) (op : Op) (r : Res) (Q : State) : String :
     | .nid _ => "manage/" ++ (match m with | .newId _ => "new_id" | .newEncrypted => "new_encrypted" | .terminate => "terminate" | .noop => "noop")
     | .refused e => "manage/refused:" ++ reprStr e
     | _ => "manage/?"
-  | .removeRemote _ => match r with | .done => "remove_remote/removed" | .refused e => "remove_remote/refused:" ++ reprStr e | _ => "remove_remote/?"
+  | .removeRemote n => match r with
+    | .done => if ((n.text.bind P.db.get).bind (pieces P.db)).isNone then "remove_remote/removed-dangling" else "remove_remote/removed"
+    | .refused e => "remove_remote/refused:" ++ reprStr e | _ => "remove_remote/?"
   | .removeLocal _ => "remove_local/noop"
   | .storeAuthn _ => "store_authn"
   | .authnCount _ => match r with | .count 0 => "authn_count/zero" | _ => "authn_count/some"
@@ -182,7 +184,8 @@ def handle (line : Json) : Json :=
     let trace := traceRev.reverse
     let mtrace := mtraceRev.reverse
     let constsOk := !K.persistent.isEmpty && K.persistent != K.transient
-    let specImpl := constsOk && bad.isNone && opsJ.length == stepsJ.length && specTrace K cfg users watch init trace
+    let ended := (stepsJ.getLast?.bind (fun j => bool? j "crash" <|> bool? j "corrupt")).isSome
+    let specImpl := constsOk && bad.isNone && !ended && opsJ.length == stepsJ.length && specTrace K cfg users watch init trace
     let sameTrace := mtrace.length == trace.length &&
       (mtrace.zip trace).all fun (a, b) => (a.2.1 == b.2.1 || (match a.2.1, b.2.1 with | .refused _, .refused _ => true | _, _ => false)) && (deltaOf a.2.2.db b.2.2.db).isEmpty && watch.map (cnt a.2.2.sdb) == watch.map (cnt b.2.2.sdb)
     let specModel := if sameTrace && bad.isNone && opsJ.length == stepsJ.length then specImpl
@@ -191,7 +194,9 @@ def handle (line : Json) : Json :=
     let why : Option String :=
       if specImpl then none else
         let rec find (P : State) (i : Nat) : List (Op × Res × State) → String
-          | [] => "length/consts"
+          | [] => if opsJ.length != stepsJ.length || (stepsJ.getLast?.bind (fun j => bool? j "crash" <|> bool? j "corrupt")).isSome
+              then s!"the implementation's history ended at step {stepsJ.length - 1}: the call broke down or left a non-string key/value in the store"
+              else "format constants unusable"
           | (op, res, Q) :: rest =>
             if opOk users cfg op && stOk K cfg P.db op then
               if specStep K users watch P op res Q then find Q (i + 1) rest
